@@ -61,6 +61,13 @@ def size_form(fn_node, expr, line, depth=0):
 def container_axes(prog, fn, fn_node, name, line):
   """sizes of the leading index positions of list-of-tensors `name`."""
   v = _resolve_local(fn_node, name, line)
+  # skip symmetric re-orderings of the same list
+  guard = 0
+  while isinstance(v, ast.Call) and getattr(
+      prog.resolve_call(fn, v), 'name', '') == \
+      '_reverse_second_list_dimension' and guard < 4:
+    v = _resolve_local(fn_node, name, v.lineno)
+    guard += 1
   if not isinstance(v, ast.Call):
     return None
   r = prog.resolve_call(fn, v)
@@ -114,10 +121,19 @@ def check_stencils(prog, res, fn, rule='A5', containers=('weights_layers',
         uses.append((base, len(chain) - 1, k, sub))
     if not uses:
       continue
+    descending = False
+    if step == -1 and len(args) == 3 and const_value(args[1]) == -1:
+      # range(size - c, -1, -1): indices size-c .. 0
+      descending = True
+      stop = args[0]
+      start = 0
     if not isinstance(start, int) or not isinstance(step, int):
       raise AnalysisError('%s: loop over %s has non-literal start/step' % (
           fn.loc(loop), var))
     sf = size_form(fn.node, stop, loop.lineno)
+    if descending and sf is not None:
+      sf = (sf[0], sf[1] - 1)     # last index size-c  ==  stop-form size-(c-1)
+      step = 1
     key = '%s|for %s in %s' % (fn.qualname, var, norm_text(loop.iter)[:40])
     if sf is None:
       raise AnalysisError('%s: cannot resolve the bound of loop `%s`' % (
